@@ -124,7 +124,8 @@ Definition drain_rereads : bool := drain_peeks_only && up_copier_reads_bufio.
 Definition tables_shape (grace : Z) : shape :=
   mkShape copy_buf_size grace tunnel_drain_first drain_rereads
           (copier_closewrite_after_copy && closewriter_calls_closewrite) bicopy_waits_all
-          closes_upstream_after_tunnel closes_client_after_tunnel tunnel_clears_read_deadline.
+          closes_upstream_after_tunnel closes_client_after_tunnel tunnel_clears_read_deadline
+          response_write_deadline_cleared.
 
 Definition implb (a c : bool) : bool := negb a || c.
 
